@@ -456,6 +456,8 @@ impl PublishData {
     pub(crate) fn subscription_identifier(&self) -> Option<u32> {
         self.packet
             .subscription_identifier
+            .first()
+            .copied()
             .map(NonZero::from)
             .map(|val| val.get())
             .map(|val| val.value())
